@@ -244,7 +244,19 @@ class MetadorNode(wrapt.ObjectProxy):
             # allow child nodes of local-only nodes to go up to the marked parent
             # (or it is None, if this is the local root)
             if lp := self._self_local_parent:
-                return lp
+                # this node might have been restricted further than its local parent
+                missing = {k.name: True for k, v in self.acl.items() if v and not lp.acl[k]}
+                if not missing:
+                    return lp
+                # -> hand out the parent with the additional restrictions of this node
+                flags = {k.name: True for k, v in lp.acl.items() if v}
+                return MetadorGroup(
+                    self._self_container,
+                    lp.__wrapped__,
+                    local_parent=lp._self_local_parent,
+                    **flags,
+                    **missing,
+                )
             else:
                 # raise exception (illegal non-local access)
                 self._guard_acl(NodeAcl.local_only, "parent")
